@@ -148,7 +148,10 @@ Proof.
 Qed.
 
 Lemma bytes_eqb_eq a b : bytes_eqb a b = true <-> a = b.
-Proof. unfold bytes_eqb. destruct (bytes_eq_dec a b); split; congruence. Qed.
+Proof.
+  split; [apply bytes_eqb_true|]. intros ->. destruct (bytes_eqb b b) eqn:E; auto.
+  exfalso. eapply bytes_eqb_false; eauto.
+Qed.
 
 Lemma pool_find_Some h c p : pool_find h c = Some p -> In p h /\ a_data p = c /\ a_pooled p = true.
 Proof.
@@ -926,3 +929,56 @@ Proof.
     specialize (G ops (@nil (option (kind * bytes)))). cbn [length] in G. lia. }
   rewrite E2 in E. inversion E; subst s1. rewrite A1. apply spec_content_kept.
 Qed.
+
+(** * The statements of Properties.v *)
+Lemma eq_iff_content ops s i j :
+  short ops -> impl_run init ops = Some s -> impl_eq s i j = spec_eq (spec_run ops) i j.
+Proof.
+  intros B E. destruct (reach ops s B E) as [SI A]. rewrite <- A.
+  apply eq_iff_content_inv. exact SI.
+Qed.
+
+Lemma pool_is_live_contents ops s :
+  short ops -> impl_run init ops = Some s ->
+  pool_len s = spec_pool_len (spec_run ops) /\ length (st_heap s) = pool_len s.
+Proof.
+  intros B E. destruct (reach ops s B E) as [SI A]. rewrite <- A. apply pool_len_inv. exact SI.
+Qed.
+
+Lemma pool_drains ops s :
+  short ops -> impl_run init ops = Some s ->
+  (forall o, In o (st_slots s) -> o = None) -> st_heap s = [] /\ pool_len s = 0%nat.
+Proof.
+  intros B E H. destruct (reach ops s B E) as [SI A].
+  pose proof (pool_drains_inv s SI H) as Z. split; [exact Z|]. unfold pool_len. rewrite Z. reflexivity.
+Qed.
+
+Lemma utf8_flag_sound ops s :
+  short ops -> impl_run init ops = Some s ->
+  (forall al, In al (st_heap s) -> a_utf8 al = true -> valid_utf8 (a_data al) = true) /\
+  (forall i a, nth_error (st_slots s) i = Some (Some (KStr, a)) ->
+     valid_utf8 (data_of (st_heap s) a) = true).
+Proof. intros B E. destruct (reach ops s B E) as [SI A]. apply utf8_sound_inv. exact SI. Qed.
+
+Lemma refcount_exact ops s :
+  short ops -> impl_run init ops = Some s ->
+  (forall al, In al (st_heap s) ->
+     a_rc al = (1 + N.of_nat (handles_on s (a_addr al)))%N /\ (1 <= handles_on s (a_addr al))%nat) /\
+  (forall i k a, nth_error (st_slots s) i = Some (Some (k, a)) ->
+     exists al, lookup (st_heap s) a = Some al).
+Proof. intros B E. destruct (reach ops s B E) as [SI A]. apply refcount_inv. exact SI. Qed.
+
+(** non-vacuity: a history exercising every operation, within the bound *)
+Definition demo_ops : list op :=
+  [OInternStr [97%N]; OInternBytes [97%N]; OClone 0; OCastBytes 0; OCastStr 1; OHandover;
+   OInternBytes [255%N]; OCastStr 3; ODrop 0; ODrop 1; ODrop 2].
+Example demo_short : short demo_ops.
+Proof. unfold short, demo_ops, refcnt_lim. cbn. lia. Qed.
+Example demo_runs :
+  exists s, impl_run init demo_ops = Some s /\ pool_len s = 0%nat /\
+            abs s = [None; None; None; None].
+Proof. eexists. split; [vm_compute; reflexivity|]. split; reflexivity. Qed.
+Example demo_two_equal :
+  exists s, impl_run init [OInternStr [97%N]; OInternBytes [97%N]; OInternBytes [98%N]] = Some s /\
+            impl_eq s 0 1 = Some true /\ impl_eq s 0 2 = Some false /\ pool_len s = 2%nat.
+Proof. eexists. split; [vm_compute; reflexivity|]. repeat split. Qed.
